@@ -27,7 +27,7 @@ m = {
     "hooks": {"guard": "verif", "enable": "none: static analysis needs no hooks; no file in /repo carries the verif tag", "baseline_off_cmd": "for m in . ./cmd/hz; do (cd /repo/$m && GOFLAGS=-mod=mod go test -json -vet=off -count=1 -timeout 25m ./...); done", "source_commits": [], "add_only": True},
     "engines": [{"name": "hzcheck", "path": "/verif/checker", "serves_properties": [c["property_id"] for c in checks], "kind_free_text": "repository-specific static analyser (go/packages + go/types + go/cfg + go/ssa, x/tools v0.29.0): ESP path-sensitive typestate, field-coverage, serialiser taint, zone abstract interpretation, constant-table agreement, guarded-by, template/type agreement. Never executes hertz."}],
     "checks": checks,
-    "notes": "Every check is static analysis of /repo's current working tree; level 'other' everywhere: each check decides named structural clauses that are necessary conditions of the behavioural property, not the behaviour itself (DESIGN.md §0). known findings: /verif/known_findings.json.",
+    "notes": "Every check is static analysis of /repo's current working tree; level 'other' everywhere: each check decides named structural clauses that are necessary conditions of the behavioural property, not the behaviour itself (DESIGN.md §0). quick = all rules of the property on linux/amd64; thorough = the same rules additionally on windows/amd64 and windows/386 -tags=stdjson (the other configurations in which the module type-checks; they select uri_windows.go, bytesconv_32.go, gjson_required.go, …), obligations merged per rule+construct, a violation wins; C16 (cmd/hz, no build-tagged sources) has thorough = quick. known findings: /verif/known_findings.json (findings empty; 13 fixed entries).",
     "not_applicable": na,
 }
 json.dump(m, open(os.path.join(here, "MANIFEST.json"), "w"), indent=1)
